@@ -45,6 +45,13 @@ def _operand_type_check(
     return wrapped_op
 
 
+def _check_reusable(expr: 'NumberExpr') -> None:
+    if (
+            expr.first_token is not expr.token_store.get_first() or
+            expr.last_token is not expr.token_store.get_last()):
+        raise ValueError('Cannot reuse node. Consider making a copy.')
+
+
 def _wrap_paren(add_expr: NumberAddExpr) -> NumberParenExpr:
     left_paren = LeftParen.from_default()
     right_paren = RightParen.from_default()
@@ -102,6 +109,7 @@ class NumberExpr(number_expr.NumberExpr, internal.RWValue[decimal.Decimal]):
         self._number_add_expr = add_expr
 
     def _iaddsub(self: 'NumberExpr', other: 'NumberExpr', op: Literal['+', '-']) -> 'NumberExpr':
+        _check_reusable(other)
         mul_expr = _as_mul_expr(other)
         add_op = AddOp.from_raw_text(op)
         self.token_store.insert_after(self.last_token, [
@@ -179,6 +187,7 @@ class NumberExpr(number_expr.NumberExpr, internal.RWValue[decimal.Decimal]):
         return other - self
 
     def _imuldiv(self: 'NumberExpr', other: 'NumberExpr', op: Literal['*', '/']) -> 'NumberExpr':
+        _check_reusable(other)
         self_mul_expr = _as_mul_expr(self)
         atom_expr = _as_atom_expr(other)
         mul_op = MulOp.from_raw_text(op)
